@@ -111,10 +111,14 @@ def originates_in_library(exc):
     tb = traceback.extract_tb(exc.__traceback__)
     if not tb:
         return False
-    fn = tb[-1].filename.replace("\\", "/")
-    if "/bnpmon/" in fn:
-        return False
-    return any(s in fn for s in ("/bionumpy/", "/npstructures/", "/numpy/", "/site-packages/"))
+    # the innermost frame that is either harness code or library code decides (standard-library frames below it - gzip, io, pickle - belong to whoever called them)
+    for frame in reversed(tb):
+        fn = frame.filename.replace("\\", "/")
+        if "/bnpmon/" in fn:
+            return False
+        if any(s in fn for s in ("/bionumpy/", "/npstructures/", "/numpy/", "/site-packages/")):
+            return True
+    return False
 
 
 class PathMonitor:
